@@ -21,3 +21,6 @@ import Spydr.Verilog.Props.C06
 #print axioms Spydr.Verilog.visit_order_defined
 #print axioms Spydr.Verilog.verilog_reader_spec_partial
 #print axioms Spydr.Verilog.verilog_roundtrip_partial
+#print axioms Spydr.Verilog.connect_assign_spec
+#print axioms Spydr.Verilog.connect_alias_spec
+#print axioms Spydr.Verilog.elab_connection_spec
